@@ -41,6 +41,16 @@ add("C15", "hypothesis-generated aspect ratios vs independent quadrature (sphero
     "Generated search over aspect ratios in [1,100] (and inputs below 1), four shapes, scalar/list/int/float arrays and radius-dependent aspect-ratio functions: semi-axes volume and ratio, thermodynamic factor = quadrature area ratio, kinetic factor = quadrature capacitance ratio (1e-8), monotone and 1 at 1, continuity at 1 for every shape, scalar = array element, caller's array bit-identical, findRcrit returns a root within its tolerance when bracketed.",
     "scipy.integrate.quad as reference; 1e-7 slack near ar=1 for cancellation; continuity threshold 1e-3")
 
+add("C03", "hypothesis-generated configurations x scripted backend-fault schedules (fault-injection proxies around analytic backends) with a well-formedness oracle after every solve call; kawin exceptions bucketed by innermost frame",
+    "Generated search over the whole configuration product (toy binary 1-3 phases, toy ternary 1-2 phases; alloys inside/outside the two-phase field, temperature profiles, sites, shapes, fixed/adaptive grids, dt-constraint toggles, minimum step fraction, iterators, 1-3 solve calls) combined with scripted fault schedules (single, early, sparse, burst, dense up to 0.5 per call) for the multicomponent growth query (returns None), the impingement factor (falls back) and binary whole-grid interfacial queries (sentinel). Oracle: end time within 2 ulp, strictly increasing times, 16 aligned finite histories, PSD >= 0, fractions/compositions in [0,1], total fraction <= 1, radii >= 0, no internal error.",
+    "faults start after the model's set-up (there are no last valid values before it); analytic backends; step cap", level="fault_enumeration")
+add("C13", "hypothesis-generated temperature schedules: exact schedule oracle, analytic inversion of the toy solvus for the table temperature (invariant), paired runs through different entry points (metamorphic, exact equality)",
+    "Generated search over 2-5 break-point schedules (heating, cooling, holds, reversals; 0.2-120 K segments; as array or as equivalent function), maxTempChange in {0.1..10}, both iterators, 1-3 solve calls: the recorded temperature equals the schedule at the recorded time exactly; the temperature at which the recorded equilibrium composition was tabulated (obtained by inverting the analytic solvus) lies within maxTempChange of the current temperature on every step; runs through the constructor parameter object, the setter, the array form and the function form are identical.",
+    "toy binary backend (analytic monotone solvus, deterministic); diffusion-model part of the statement is checked in the C04 harness clause when present")
+add("C19", "hypothesis-generated scenarios with thresholds placed from a dry run; oracle recomputed from the recorded history (reference model of any/all latching); differential against independent runs for the TTP calculator",
+    "Generated search over 1-4 conditions on the six monitored quantities, both inequalities, phase selection, or/and mixes and thresholds placed (from a dry run of the same deterministic scenario) to be met early, late or never, over 1-3 solve calls: the stop step, the end time when never met, latching of satisfaction and of the reported time, crossing time inside the crossing step and equal to the linear interpolation are recomputed from the recorded history; TTP calculator entries are compared with independent conditioned runs per temperature (-1 when never met).",
+    "toy binary backend; conditions already true at the first tested step only need to latch")
+
 NOT_YET = {}
 
 ALL = ["C%02d" % i for i in range(1, 21)]
